@@ -51,3 +51,115 @@ theorem pop_append (l : List α) (x : α) : pop (l ++ [x]) = some (l, x) := by
 @[simp] theorem pop_nil : pop ([] : List α) = none := rfl
 
 end Py
+
+namespace Py.Dict
+variable {κ ν : Type} [DecidableEq κ]
+
+@[simp] theorem get?_nil (k : κ) : get? ([] : Dict κ ν) k = none := rfl
+
+theorem get?_cons (p : κ × ν) (d : Dict κ ν) (k : κ) :
+    get? (p :: d) k = if p.1 = k then some p.2 else get? d k := by
+  simp only [get?, List.find?_cons]
+  by_cases h : p.1 = k <;> simp [h]
+
+theorem get?_append_singleton (d : Dict κ ν) (k k' : κ) (v : ν) :
+    get? (d ++ [(k, v)]) k' = match get? d k' with | some x => some x | none => if k = k' then some v else none := by
+  induction d with
+  | nil => simp [get?_cons]
+  | cons p d ih =>
+    simp only [List.cons_append, get?_cons]
+    by_cases h : p.1 = k' <;> simp [h, ih]
+
+theorem get?_map_set (d : Dict κ ν) (k k' : κ) (v : ν) :
+    get? (d.map (fun p => if p.1 = k then (k, v) else p)) k' =
+      if k' = k then (get? d k).map (fun _ => v) else get? d k' := by
+  induction d with
+  | nil => simp
+  | cons p d ih =>
+    simp only [List.map_cons, get?_cons]
+    by_cases hp : p.1 = k
+    · by_cases hk : k' = k
+      · subst hk; simp [hp]
+      · have : ¬ k = k' := fun c => hk c.symm
+        have : ¬ p.1 = k' := fun c => hk (by rw [← c, hp])
+        simp [hp, hk, *, ih]
+    · by_cases hk : k' = k
+      · subst hk; simp [hp, ih]
+      · by_cases hq : p.1 = k' <;> simp [hp, hk, hq, ih]
+
+/-- `d[k] = v` then read -/
+theorem get?_set (d : Dict κ ν) (k k' : κ) (v : ν) : get? (set d k v) k' = if k' = k then some v else get? d k' := by
+  unfold set contains
+  cases h : get? d k with
+  | none =>
+    simp only [Option.isSome_none, Bool.false_eq_true, if_false, get?_append_singleton]
+    by_cases hk : k' = k
+    · subst hk; simp [h]
+    · have : ¬ k = k' := fun c => hk c.symm
+      cases get? d k' <;> simp [hk, this]
+  | some x =>
+    simp only [Option.isSome_some, if_true, get?_map_set, h]
+    by_cases hk : k' = k <;> simp [hk]
+
+theorem get?_setdefault (d : Dict κ ν) (k k' : κ) (v : ν) :
+    get? (setdefault d k v) k' = match get? d k' with | some x => some x | none => if k' = k then some v else none := by
+  unfold setdefault contains
+  cases h : get? d k with
+  | none =>
+    simp only [Option.isSome_none, Bool.false_eq_true, if_false, get?_append_singleton]
+    by_cases hk : k' = k
+    · subst hk; simp [h]
+    · have : ¬ k = k' := fun c => hk c.symm
+      cases get? d k' <;> simp [hk, this]
+  | some x =>
+    simp only [Option.isSome_some, if_true]
+    by_cases hk : k' = k
+    · subst hk; simp [h]
+    · cases get? d k' <;> simp [hk]
+
+theorem get?_filter_ne (d : Dict κ ν) (k k' : κ) :
+    get? (d.filter (fun p => p.1 ≠ k)) k' = if k' = k then none else get? d k' := by
+  induction d with
+  | nil => simp
+  | cons p d ih =>
+    simp only [ne_eq, decide_not] at ih ⊢
+    simp only [List.filter_cons]
+    by_cases hp : p.1 = k
+    · by_cases hk : k' = k
+      · subst hk; simpa [hp] using ih
+      · have h1 : ¬ p.1 = k' := fun c => hk (by rw [← c, hp])
+        have h2 : ¬ k = k' := fun c => hk c.symm
+        simp [hp, hk, ih, get?_cons, h2]
+    · by_cases hk : k' = k
+      · subst hk; simpa [hp, get?_cons] using ih
+      · simp [hp, hk, ih, get?_cons]
+
+@[simp] theorem get?_filter_ne' (d : Dict κ ν) (k k' : κ) :
+    get? (d.filter (fun p => !decide (p.1 = k))) k' = if k' = k then none else get? d k' := by
+  have := get?_filter_ne d k k'
+  simpa only [ne_eq, decide_not] using this
+
+/-- `d.pop(k)` succeeds exactly on a present key, returns its value and removes the key -/
+theorem pop_of_get? (d : Dict κ ν) (k : κ) (x : ν) (h : get? d k = some x) :
+    pop d k = some (d.filter (fun p => p.1 ≠ k), x) := by
+  simp [pop, h]
+
+theorem pop_none (d : Dict κ ν) (k : κ) (h : get? d k = none) : pop d k = none := by
+  simp [pop, h]
+
+theorem getD_eq (d : Dict κ ν) (k : κ) (dv : ν) : getD d k dv = (get? d k).getD dv := rfl
+
+end Py.Dict
+
+namespace Py
+variable {V R : Type}
+
+theorem whileF_next (cond : V → Option Bool) (body : V → Res V R) (f : Nat) (v v' : V)
+    (hc : cond v = some true) (hb : body v = .next v') : whileF cond body (f + 1) v = whileF cond body f v' := by
+  simp [whileF, hc, hb]
+
+theorem whileF_done (cond : V → Option Bool) (body : V → Res V R) (f : Nat) (v : V)
+    (hc : cond v = some false) : whileF cond body (f + 1) v = .next v := by
+  simp [whileF, hc]
+
+end Py
